@@ -11,8 +11,8 @@ import (
 // Fixed operator table (the ISO defaults that the harness uses); no user-defined operators.
 
 type opDef struct {
-	pri  int
-	typ  string
+	pri int
+	typ string
 }
 
 var infixOps = map[string]opDef{
@@ -115,6 +115,26 @@ func lex(src string) ([]tok, error) {
 						sb.WriteRune('\\')
 					case '\'':
 						sb.WriteRune('\'')
+					case 't':
+						sb.WriteRune('\t')
+					case 'x':
+						// \xHH..\
+						k := j + 2
+						v := 0
+						for k < len(rs) && rs[k] != '\\' {
+							d := strings.IndexRune("0123456789abcdef", unicode.ToLower(rs[k]))
+							if d < 0 {
+								return nil, fmt.Errorf("bad hex escape")
+							}
+							v = v*16 + d
+							k++
+						}
+						if k >= len(rs) {
+							return nil, fmt.Errorf("unterminated hex escape")
+						}
+						sb.WriteRune(rune(v))
+						j = k + 1
+						continue
 					default:
 						return nil, fmt.Errorf("escape not supported")
 					}
